@@ -1,6 +1,6 @@
 (* C02 - notify delivers every payload intact.  The slot formula is GENERATED from its four copies in sc_notify.c. *)
 From Coq Require Import ZArith List Bool Permutation.
-From ScV Require Import Base.CInt Gen.NotifyC01 C02.SlotProofs C02.PayloadModel C01.MergeModel C01.MergeProofs C01.MergeCorr Gen.Consts MPI.Prog C01.NotifyProgs C01.NotifyProgProofs C01.NaryArith C01.NaryDelivery C01.RecordOps C01.BinaryRound C01.NaryRound.
+From ScV Require Import Base.CInt Gen.NotifyC01 C02.SlotProofs C02.PayloadModel C01.MergeModel C01.MergeProofs C01.MergeCorr Gen.Consts MPI.Prog C01.NotifyProgs C01.NotifyProgProofs C01.NaryArith C01.NaryDelivery C01.RecordOps C01.BinaryRound C01.NaryRound C01.PexRound C01.NbxProofs.
 Import ListNotations.
 Local Open Scope Z_scope.
 
@@ -145,3 +145,35 @@ Theorem C02_nary_core_round_semantics_partial : forall G (R : Z -> list Z) (pay 
   = (all_acts G R payf me 1 ls h0, Some (result (transpose G R me) (map (fun s => pay s me) (transpose G R me)))).
 Proof. exact nary_core_round_semantics_payload. Qed.
 Print Assumptions C02_nary_core_round_semantics_partial.
+
+(* ---- pex with payload: slots of the generated npay_pex ints behind the flag, one MPI_Alltoall; from the contract of the
+   collective every rank ends with the ascending senders and pay s me at the position of sender s (hp = true), for every
+   item size 0 < sz < 2^31 *)
+Theorem C02_pex_program : forall (coll : Z -> list payload -> Z -> payload),
+  (forall (b : nat) cs r, (forall c, In c cs -> length c = (b * length cs)%nat) -> 0 <= r < Z.of_nat (length cs) ->
+     coll K_ALLTOALL cs r = flat_map (fun c => firstn b (skipn (Z.to_nat r * b) c)) cs) ->
+  forall P (R : Z -> list Z), 0 < P ->
+  forall (hp : bool) (pay : Z -> Z -> payload) sz, 0 < sz < 2 ^ 31 ->
+  (forall f t, Forall isbyte (pay f t) /\ Z.of_nat (length (pay f t)) = sz) ->
+  forall me, 0 <= me < P ->
+  run [coll K_ALLTOALL (map (pex_contrib P R hp pay sz) (ranks P)) me]
+      (pex_core P (R me) (pex_ep R hp pay me) sz (fun s g => Ret (result s g)))
+  = ([Coll K_ALLTOALL (-1) (pex_contrib P R hp pay sz me)],
+     Some (result (transpose P R me) (if hp then map (fun s => pay s me) (transpose P R me) else []))).
+Proof. exact pex_round. Qed.
+Print Assumptions C02_pex_program.
+
+(* ---- nbx with payload: see C01_nbx_round_semantics (same theorem; the payload of sender s ends at the position of s) ---- *)
+Theorem C02_nbx_round_semantics : forall P (R : Z -> list Z) (pay : Z -> Z -> payload) (its1 its2 : list (option (Z * payload)))
+    (m1 m2 : option (Z * payload)) me (sorted : bool) (order : list Z) (fuel : nat),
+  0 <= me < P -> Permutation order (transpose P R me) ->
+  received (its1 ++ [m1] ++ its2 ++ [m2]) = map (fun s => (s, pay s me)) order ->
+  (length its1 + length its2 + 1 < fuel)%nat ->
+  let final := if sorted then transpose P R me else order in
+  run (repeat [] (length (R me)) ++ replies1 its1 m1 ++ replies2 its2 m2)
+      (nbx_core fuel (R me) (Some (map (pay me) (R me))) sorted (fun s g => Ret (result s g)))
+  = (map (fun r => Send r c_SC_TAG_NOTIFY_NBX (pay me r)) (R me)
+       ++ acts1 c_SC_TAG_NOTIFY_NBX (length its1) ++ acts2 c_SC_TAG_NOTIFY_NBX (length its2),
+     Some (result final (map (fun s => pay s me) final))).
+Proof. exact nbx_round. Qed.
+Print Assumptions C02_nbx_round_semantics.
